@@ -109,13 +109,17 @@ class _MaxRequestBytesMiddleware:
 
     def process_request(self, req: falcon.Request, resp: falcon.Response) -> None:
         """Reject oversized inline request bodies with HTTP 413."""
+        # A declared length over the cap is refused on every path, exempt or
+        # not: the exemption below only skips the sentinel read of a body
+        # without Content-Length.  Otherwise a later middleware (content
+        # decoding) reads the whole declared body of an "exempt" request.
+        cl = req.content_length
+        if cl is not None and cl > self._max_bytes:
+            self._raise_too_large(cl)
         path = req.path
         for prefix in self._exempt_prefixes:
             if path == prefix or path.startswith(prefix + "/"):
                 return
-        cl = req.content_length
-        if cl is not None and cl > self._max_bytes:
-            self._raise_too_large(cl)
         if cl is None:
             body = req.bounded_stream.read(self._max_bytes + 1)
             if len(body) > self._max_bytes:
